@@ -1,8 +1,10 @@
 #!/venv/bin/python
-"""Run every property check against behaviour-preserving refactors: tools/refcheck.py <diff>...
-Each diff is applied to a scratch worktree of /repo's HEAD (never /repo itself), `sa.checkall <worktree>` runs, the worktree is reset.
+"""Run every property check against behaviour-preserving refactors: tools/refcheck.py [--jobs N] [--suite] <diff>...
+Each diff is applied to a scratch worktree of /repo's HEAD (never /repo itself; one worktree per worker), `sa.checkall <worktree>`
+runs, the worktree is reset and removed at the end.
 Every check must exit 0 (KNOWN-FINDING lines allowed): anything else is a false alarm of the machinery."""
 import json, os, subprocess, sys
+from concurrent.futures import ThreadPoolExecutor
 VERIF = os.path.dirname(os.path.dirname(os.path.abspath(__file__)))
 WT = '/tmp/fggs-ref-wt'
 
@@ -12,38 +14,61 @@ def sh(cmd, cwd=None, timeout=1800):
     return r.returncode, r.stdout + r.stderr
 
 
+def one(d, wt, suite):
+    lines = []; bad = 0
+    sh('git checkout -- . && git clean -fdq', cwd=wt)
+    rc, out = sh(f"git apply {os.path.abspath(d)}", cwd=wt)
+    if rc:
+        # the diff was made against an earlier HEAD: merge it
+        sh('git checkout -- . && git clean -fdq', cwd=wt)
+        rc, out = sh(f"git apply --3way {os.path.abspath(d)}", cwd=wt)
+        sh('git reset -q', cwd=wt)
+    if rc:
+        return [f"{d}: does not apply: {out.strip()[:200]}"], 1
+    if suite:
+        rc, out = sh(f"PYTHONPATH={wt} /venv/bin/python -m pytest -q -p no:cacheprovider 2>&1 | tail -1", cwd=wt)
+        lines.append(f"{d}: suite: {out.strip()}")
+    rc, out = sh(f"/venv/bin/python -m sa.checkall {wt}", cwd=VERIF, timeout=900)
+    line = [l for l in out.splitlines() if l.startswith('{')]
+    if not line:
+        return lines + [f"{d}: checkall failed: {out[-400:]}"], 1
+    res = json.loads(line[-1])
+    nz = {p: r for p, r in res.items() if r['exit'] != 0}
+    lines.append(f"{d}: {'all 18 checks exit 0' if not nz else 'NON-ZERO: ' + ', '.join(f'{p}={r['exit']}' for p, r in nz.items())}")
+    for p, r in nz.items():
+        bad += 1
+        for l in r['reports'][:4]: lines.append('      ' + p + ' ' + l[:260])
+    return lines, bad
+
+
 def main():
     suite = '--suite' in sys.argv
-    diffs = [a for a in sys.argv[1:] if not a.startswith('--')]
-    sh(f"git -C /repo worktree remove --force {WT}")
-    sh(f"git -C /repo worktree add -f --detach {WT} HEAD")
+    args = sys.argv[1:]
+    jobs = 8
+    if '--jobs' in args:
+        i = args.index('--jobs'); jobs = int(args[i + 1]); del args[i:i + 2]
+    diffs = [a for a in args if not a.startswith('--')]
+    jobs = max(1, min(jobs, len(diffs)))
+    wts = [f"{WT}-{k}" for k in range(jobs)]
+    for wt in wts:
+        sh(f"git -C /repo worktree remove --force {wt}")
+        sh(f"git -C /repo worktree add -f --detach {wt} HEAD")
     bad = 0
     try:
+        def worker(k):
+            out = []
+            for d in diffs[k::jobs]:
+                out.append((d, one(d, wts[k], suite)))
+            return out
+        with ThreadPoolExecutor(jobs) as ex:
+            results = dict(x for part in ex.map(worker, range(jobs)) for x in part)
         for d in diffs:
-            sh('git checkout -- .', cwd=WT)
-            rc, out = sh(f"git apply {os.path.abspath(d)}", cwd=WT)
-            if rc:
-                # the diff was made against an earlier HEAD: merge it
-                sh('git checkout -- .', cwd=WT)
-                rc, out = sh(f"git apply --3way {os.path.abspath(d)}", cwd=WT)
-                sh('git reset -q', cwd=WT)
-            if rc:
-                print(f"{d}: does not apply: {out.strip()[:200]}"); bad += 1; continue
-            if suite:
-                rc, out = sh(f"PYTHONPATH={WT} /venv/bin/python -m pytest -q -p no:cacheprovider 2>&1 | tail -1", cwd=WT)
-                print(f"{d}: suite: {out.strip()}")
-            rc, out = sh(f"/venv/bin/python -m sa.checkall {WT}", cwd=VERIF, timeout=900)
-            line = [l for l in out.splitlines() if l.startswith('{')]
-            if not line:
-                print(f"{d}: checkall failed: {out[-400:]}"); bad += 1; continue
-            res = json.loads(line[-1])
-            nz = {p: r for p, r in res.items() if r['exit'] != 0}
-            print(f"{d}: {'all 18 checks exit 0' if not nz else 'NON-ZERO: ' + ', '.join(f'{p}={r['exit']}' for p, r in nz.items())}")
-            for p, r in nz.items():
-                bad += 1
-                for l in r['reports'][:4]: print('     ', p, l[:260])
+            lines, b = results[d]
+            bad += b
+            print('\n'.join(lines))
     finally:
-        sh(f"git -C /repo worktree remove --force {WT}")
+        for wt in wts:
+            sh(f"git -C /repo worktree remove --force {wt}")
     return 1 if bad else 0
 
 
